@@ -41,6 +41,20 @@ func (o *OnOff) UnmarshalFlag(v string) error {
 	return nil
 }
 
+// CSV is a slice-kinded type with its own Unmarshaler: every argument adds its comma-separated items.
+type CSV []string
+
+func (c *CSV) UnmarshalFlag(v string) error {
+	if v == "bad" {
+		return errors.New("csv: bad value")
+	}
+	*c = append(*c, strings.Split(v, ",")...)
+	return nil
+}
+
+// Level is a named string type (map keys / values of named types).
+type Level string
+
 // Picky is a string with a ValueValidator: refuses separate-token values starting with "no".
 type Picky string
 
@@ -191,6 +205,15 @@ var (
 	TUppers   = &Type{"[]Upper", reflect.TypeOf([]Upper{})}
 	TPicky    = &Type{"Picky", reflect.TypeOf(Picky(""))}
 	TOnOff    = &Type{"OnOff", reflect.TypeOf(OnOff(false))}
+	TCSV      = &Type{"CSV", reflect.TypeOf(CSV{})}
+	TMapLS    = &Type{"map[Level]string", reflect.TypeOf(map[Level]string{})}
+	TMapSL    = &Type{"map[string]Level", reflect.TypeOf(map[string]Level{})}
+	TPInts    = &Type{"[]*int", reflect.TypeOf([]*int{})}
+	TPBools   = &Type{"[]*bool", reflect.TypeOf([]*bool{})}
+	TPPBool   = &Type{"**bool", reflect.TypeOf((**bool)(nil))}
+	TPWords   = &Type{"*Words", reflect.TypeOf((*Words)(nil))}
+	TMapBS    = &Type{"map[bool]string", reflect.TypeOf(map[bool]string{})}
+	TMapU16U8 = &Type{"map[uint16]uint8", reflect.TypeOf(map[uint16]uint8{})}
 	TWords    = &Type{"Words", reflect.TypeOf(Words(""))}
 	TWords2   = &Type{"Words2", reflect.TypeOf(Words2(""))}
 	TWordss   = &Type{"[]Words", reflect.TypeOf([]Words{})}
